@@ -320,25 +320,46 @@ func stubLock(write bool) stubFn {
 		}
 		st := c.st
 		held := st.locks[id]
-		if !write && held > 0 && held < 1000 {
+		mine := st.holders[id][st.curTID]
+		others := held - mine
+		if !write && mine > 0 && mine < 1000 {
 			// recursive read lock: deadlocks as soon as a writer arrives between the two RLock calls
 			e.failHere(st, e.hprop+".no_deadlock", "lock", "recursive RLock of the same RWMutex by one goroutine (prohibited: a waiting writer blocks the inner RLock) @ "+e.pos(c.f, c.in))
 		}
-		if held >= 1000 || (write && held > 0) {
+		if mine >= 1000 || (write && mine > 0) {
 			e.failHere(st, e.hprop+".no_deadlock", "lock", "lock acquired while already held by this goroutine @ "+e.pos(c.f, c.in))
 			st.status = "blocked"
 			return true
 		}
+		if others >= 1000 || (write && others > 0) {
+			// held by another goroutine: wait for it (the Lock call is re-executed when the mutex is released)
+			if len(st.resume) > 0 || e.hasRunnable(st) {
+				c.f.ip--
+				st.threads = append(st.threads, &Thread{frames: st.frames, waitCh: -2, waitMu: id, id: st.curTID})
+				st.frames = nil
+				return false
+			}
+			e.failHere(st, e.hprop+".no_deadlock", "lock", "lock held by another goroutine and nobody left to release it @ "+e.pos(c.f, c.in))
+			st.status = "blocked"
+			return true
+		}
 		for other, n := range st.locks {
-			if n != 0 && other != id {
+			if n != 0 && other != id && st.holders[other][st.curTID] != 0 {
 				st.lockOrder = append(st.lockOrder, [2]int{other, id})
 			}
 		}
+		n := 1
 		if write {
-			st.locks[id] += 1000
-		} else {
-			st.locks[id]++
+			n = 1000
 		}
+		st.locks[id] += n
+		if st.holders == nil {
+			st.holders = map[int]map[int]int{}
+		}
+		if st.holders[id] == nil {
+			st.holders[id] = map[int]int{}
+		}
+		st.holders[id][st.curTID] += n
 		return true
 	}
 }
@@ -355,13 +376,35 @@ func stubUnlock(write bool) stubFn {
 			e.panicCheck(st, c.f, c.in, e.tb.ff, "unlock of unlocked mutex")
 			return true
 		}
+		n := 1
 		if write {
-			st.locks[id] -= 1000
-		} else {
-			st.locks[id]--
+			n = 1000
 		}
+		st.locks[id] -= n
 		if st.locks[id] == 0 {
 			delete(st.locks, id)
+		}
+		// sync.Mutex is not owner-bound: release this goroutine's hold if it has one, else some other holder's
+		h := st.holders[id]
+		tid := st.curTID
+		if h[tid] < n {
+			for t, v := range h {
+				if v >= n {
+					tid = t
+					break
+				}
+			}
+		}
+		if h != nil {
+			h[tid] -= n
+			if h[tid] <= 0 {
+				delete(h, tid)
+			}
+		}
+		for _, t := range st.threads {
+			if t.waitCh == -2 && t.waitMu == id && !t.done {
+				t.waitCh, t.waitMu = 0, 0 // runnable: re-executes its Lock
+			}
 		}
 		return true
 	}
@@ -377,6 +420,13 @@ func stubTryLock(e *Engine, c *callCtx) bool {
 		return true
 	}
 	c.st.locks[id] += 1000
+	if c.st.holders == nil {
+		c.st.holders = map[int]map[int]int{}
+	}
+	if c.st.holders[id] == nil {
+		c.st.holders[id] = map[int]int{}
+	}
+	c.st.holders[id][c.st.curTID] += 1000
 	c.set(BoolV{e.tb.tt})
 	return true
 }
